@@ -10,10 +10,11 @@ import Driver.Broadcast
 import Driver.Meanstress
 import Driver.Vmap
 import Driver.Notch
+import Driver.Mesh
 open PylifeVerif.Driver
 
 /-- All handlers; the first that recognises the op answers. -/
-def handlers : List (List String → Option String) := [handleRainflow, handleHCM, handleFkmNonlinear, handleWoehler, handleCollective, handleEquistress, handleMiner, handleMaterialLaws, handleBroadcast, handleMeanstress, handleVmap, handleNotch]
+def handlers : List (List String → Option String) := [handleRainflow, handleHCM, handleFkmNonlinear, handleWoehler, handleCollective, handleEquistress, handleMiner, handleMaterialLaws, handleBroadcast, handleMeanstress, handleVmap, handleNotch, handleMesh]
 
 def answer (line : String) : String :=
   let toks := (line.splitOn " ").filter (· ≠ "")
